@@ -356,6 +356,16 @@ def ro_array(g, probe, acc):
                 out.append((_key("delta_stress/not-the-inverse-of-delta_strain/array"), {"delta_stress": s, "got": b}))
                 break
     smax = axis[-1]
+    # another material asked for a reversal stress in this process, then this one for the same reversal stress (one nobody
+    # has asked for before): the branch must meet this material's own curve there
+    from pylife.materiallaws.rambgood import RambergOsgood as _RO
+    s2 = 0.9371 * smax
+    _RO(2.0 * E, 1.5 * K, n).lower_hysteresis(np.array([0.0, s2]), s2)
+    own = float(np.asarray(ro.lower_hysteresis(np.array([s2]), s2), dtype=float).reshape(-1)[0])
+    acc.evaluations += 2
+    if not abs(own - ref.ro_strain(E, K, n, s2)) <= 1e-13 * abs(ref.ro_strain(E, K, n, s2)):
+        out.append((_key("lower_hysteresis/does-not-meet-the-curve-at-the-reversal-point/after-another-material-was-asked"),
+                    {"max_stress": s2, "got": own, "strain(max_stress)": ref.ro_strain(E, K, n, s2)}))
     lh = np.asarray(ro.lower_hysteresis(arr, smax), dtype=float).tolist()
     acc.evaluations += 1
     if not abs(lh[-1] - el[-1]) <= 1e-15 * abs(el[-1]):
@@ -623,6 +633,13 @@ def true_point(probe, acc):
     te = float(np.asarray(T.true_strain(ee), dtype=float).reshape(-1)[0])
     ts = float(np.asarray(T.true_stress(ss, ee), dtype=float).reshape(-1)[0])
     acc.evaluations += 2
+    if cont == "array":
+        # the usual conversion of a tensile record: true stress first, then the true strain from the same strain array
+        te2 = float(np.asarray(T.true_strain(ee), dtype=float).reshape(-1)[0])
+        acc.evaluations += 1
+        if not (te2 == te or (math.isnan(te2) and math.isnan(te))):
+            out.append(("C16/true_strain/differs-when-asked-after-true_stress-with-the-same-strain-array",
+                        {"tech_strain": e, "true_strain_asked_first": te, "true_strain_asked_after_true_stress": te2}))
     # engineering counterparts: e = exp(true strain) - 1,  s = true stress / (1 + e)
     if not abs(math.exp(te) - (1.0 + e)) <= 4 * math.ulp(1.0 + e):
         out.append(("C16/true_strain/not-the-inverse-of-the-engineering-strain", {"tech_strain": e, "true_strain": te, "exp(true_strain)-1": math.exp(te) - 1}))
